@@ -168,7 +168,7 @@ func Decode(wire string, v interface{}) {
 	if wire == "" {
 		return
 	}
-	if err := json.Unmarshal([]byte(wire), v); err != nil {
+	if err := decodeInto([]byte(wire), reflect.ValueOf(v).Elem()); err != nil {
 		// the generated Go type does not take the JSON value of the declared varlink type: reported with the
 		// next event (the wire values are the reference encoding of the description's own types)
 		if decodeErr == "" {
@@ -178,6 +178,85 @@ func Decode(wire string, v interface{}) {
 }
 
 var decodeErr string
+
+// decodeInto: encoding/json, except that the untagged struct types of the generated API (inline structs appear
+// there without tags, field "kK" as KK) are filled by the exact member name - encoding/json alone would match
+// member names case-insensitively and confuse "kk" with "kK"
+func decodeInto(b []byte, rv reflect.Value) error {
+	t := rv.Type()
+	switch t.Kind() {
+	case reflect.Ptr:
+		if string(bytes.TrimSpace(b)) == "null" {
+			rv.Set(reflect.Zero(t))
+			return nil
+		}
+		nv := reflect.New(t.Elem())
+		if err := decodeInto(b, nv.Elem()); err != nil {
+			return err
+		}
+		rv.Set(nv)
+		return nil
+	case reflect.Struct:
+		tagged := false
+		for i := 0; i < t.NumField(); i++ {
+			if _, ok := t.Field(i).Tag.Lookup("json"); ok {
+				tagged = true
+			}
+		}
+		if tagged || t.NumField() == 0 {
+			return json.Unmarshal(b, rv.Addr().Interface())
+		}
+		var m map[string]json.RawMessage
+		if err := json.Unmarshal(b, &m); err != nil {
+			return err
+		}
+		for i := 0; i < t.NumField(); i++ {
+			n := t.Field(i).Name
+			key := strings.ToLower(n[:1]) + n[1:]
+			if raw, ok := m[key]; ok {
+				if err := decodeInto(raw, rv.Field(i)); err != nil {
+					return err
+				}
+			}
+		}
+		return nil
+	case reflect.Slice:
+		if t.Elem().Kind() == reflect.Uint8 || string(bytes.TrimSpace(b)) == "null" {
+			return json.Unmarshal(b, rv.Addr().Interface())
+		}
+		var arr []json.RawMessage
+		if err := json.Unmarshal(b, &arr); err != nil {
+			return err
+		}
+		sl := reflect.MakeSlice(t, len(arr), len(arr))
+		for i := range arr {
+			if err := decodeInto(arr[i], sl.Index(i)); err != nil {
+				return err
+			}
+		}
+		rv.Set(sl)
+		return nil
+	case reflect.Map:
+		if string(bytes.TrimSpace(b)) == "null" {
+			return json.Unmarshal(b, rv.Addr().Interface())
+		}
+		var m map[string]json.RawMessage
+		if err := json.Unmarshal(b, &m); err != nil {
+			return err
+		}
+		mv := reflect.MakeMapWithSize(t, len(m))
+		for k, raw := range m {
+			ev := reflect.New(t.Elem()).Elem()
+			if err := decodeInto(raw, ev); err != nil {
+				return err
+			}
+			mv.SetMapIndex(reflect.ValueOf(k).Convert(t.Key()), ev)
+		}
+		rv.Set(mv)
+		return nil
+	}
+	return json.Unmarshal(b, rv.Addr().Interface())
+}
 func Equal(a, b interface{}) bool { return reflect.DeepEqual(norm(a), norm(b)) }
 
 // json.RawMessage values are compared as JSON, not as bytes
@@ -637,7 +716,8 @@ func emitProgram(i int, c *progCase, rng *rand.Rand) (string, int) {
 	w("\t{\n\t\tvar out json.RawMessage\n\t\terr := conn.Call(ctx, iface+\".NoSuchMethod\", nil, &out)\n\t\tmnf, is := err.(*varlink.MethodNotFound)\n\t\th.TakeFrames(\"c2s\"); h.TakeFrames(\"s2c\")\n\t\th.Emit(map[string]interface{}{\"prog\": %d, \"method\": \"NoSuchMethod\", \"mode\": \"unknown\", \"result_ok\": is && mnf.Method == \"NoSuchMethod\"})\n\t}\n", i)
 	if first != "" {
 		for _, p := range plans {
-			if p.name == first && len(p.in) > 0 {
+			if p.overridden && len(p.in) > 0 {
+				first := p.name
 				w("\t{\n\t\tvar out json.RawMessage\n\t\trecv, err := conn.Send(ctx, iface+\".\"+%q, json.RawMessage(`\"not an object\"`), 0)\n\t\tif err == nil {\n\t\t\t_, err = recv(ctx, &out)\n\t\t}\n\t\tip, is := err.(*varlink.InvalidParameter)\n\t\th.TakeFrames(\"c2s\"); h.TakeFrames(\"s2c\"); h.Seen(%q)\n\t\th.Emit(map[string]interface{}{\"prog\": %d, \"method\": %q, \"mode\": \"undecodable\", \"result_ok\": is && ip.Parameter == \"parameters\"})\n\t}\n", first, first, i, first)
 			}
 		}
@@ -663,13 +743,18 @@ func emitProgram(i int, c *progCase, rng *rand.Rand) (string, int) {
 				w("\t\t\trecv, err := q.%s().Send(ctx, conn, %s%s)\n\t\t\tif err == nil {\n\t\t\t\trecv(ctx)\n\t\t\t}\n", p.name, fl.expr, args)
 			}
 			w("\t\t\tvar fl [3]bool\n\t\t\tsaw := false\n\t\t\tfor k := 0; k < 2000 && !saw; k++ {\n\t\t\t\t_, fl, saw = h.Seen(%q)\n\t\t\t\tif !saw {\n\t\t\t\t\ttime.Sleep(time.Millisecond)\n\t\t\t\t}\n\t\t\t}\n", p.name)
-			w("\t\t\tcf := h.TakeFrames(\"c2s\")\n\t\t\trf := h.TakeFrames(\"s2c\")\n\t\t\tvar call struct{ More, Oneway, Upgrade bool }\n\t\t\tif len(cf) == 1 {\n\t\t\t\tjson.Unmarshal(cf[0], &call)\n\t\t\t}\n")
+			w("\t\t\tcf := h.TakeFrames(\"c2s\")\n\t\t\trf := h.TakeFrames(\"s2c\")\n\t\t\tvar call struct {\n\t\t\t\tMore, Oneway, Upgrade bool\n\t\t\t\tParameters json.RawMessage `json:\"parameters\"`\n\t\t\t}\n\t\t\tif len(cf) == 1 {\n\t\t\t\tjson.Unmarshal(cf[0], &call)\n\t\t\t}\n")
+			if len(p.in) == 0 {
+				w("\t\t\tparamsOK := len(call.Parameters) == 0 || h.Canon(call.Parameters) == h.Canon([]byte(`{}`)) || string(call.Parameters) == \"null\"\n")
+			} else {
+				w("\t\t\tparamsOK := h.CanonN(call.Parameters%s) == h.Canon([]byte(%q))\n", nullableArgs(p.in, p.inWire), wireObject(p.in, p.inWire))
+			}
 			want := map[string]string{"more": "[3]bool{true, false, false}", "oneway": "[3]bool{false, true, false}", "upgrade": "[3]bool{false, false, true}"}[fl.name]
 			replies := "1"
 			if fl.name == "oneway" {
 				replies = "0"
 			}
-			w("\t\t\th.Emit(map[string]interface{}{\"prog\": %d, \"method\": %q, \"mode\": \"flag-%s\", \"result_ok\": saw && fl == %s && [3]bool{call.More, call.Oneway, call.Upgrade} == %s && len(rf) == %s})\n\t\t}\n", i, p.name, fl.name, want, want, replies)
+			w("\t\t\th.Emit(map[string]interface{}{\"prog\": %d, \"method\": %q, \"mode\": \"flag-%s\", \"result_ok\": saw && paramsOK && fl == %s && [3]bool{call.More, call.Oneway, call.Upgrade} == %s && len(rf) == %s, \"wire_params_ok\": paramsOK})\n\t\t}\n", i, p.name, fl.name, want, want, replies)
 		}
 		w("\t}\n")
 	}
